@@ -72,3 +72,39 @@ fn push_remove<const BODY: usize>() {
 }
 vproof!(c05_unhashed_push_remove_small, 6, { push_remove::<5>() });
 vproof!(c05_unhashed_push_remove_2octet_len, 6, { push_remove::<195>() });
+
+/// composite length: SignedKeyDetails with one direct-key signature (v4, creation-time subpacket, opaque
+/// signature octets): write_len == octets written by to_writer (tag octet + length octets + body)
+vproof!(c05_details_write_len, 12, {
+    use crate::composed::SignedKeyDetails;
+    use crate::ser::Serialize;
+    use crate::types::Timestamp;
+    let t: u32 = kani::any();
+    let sp = Subpacket { is_critical: false, data: SubpacketData::SignatureCreationTime(Timestamp::from_secs(t)), len: SubpacketLength::One(5) };
+    let mut harr = core::mem::ManuallyDrop::new([sp]);
+    let mut ustore = core::mem::MaybeUninit::<[Subpacket; 1]>::uninit();
+    let mut cfg = SignatureConfig::v4(SignatureType::Key, PublicKeyAlgorithm::RSA, HashAlgorithm::Sha256);
+    cfg.hashed_subpackets = stack_vec!(harr, 1);
+    cfg.unhashed_subpackets = stack_vec_empty!(ustore, Subpacket);
+    // body: version(1) type(1) pk(1) hash(1) hashed-len(2) hashed(6) unhashed-len(2) hash-prefix(2) sig(4) = 20
+    let sig = Signature {
+        packet_header: PacketHeader::new_fixed(Tag::Signature, 20),
+        inner: InnerSignature::Known { config: cfg, signed_hash_value: [1, 2], signature: SignatureBytes::Native(Bytes::from_static(b"mock")) },
+    };
+    assert!(sig.write_len() == 20, "C05: Signature::write_len");
+    let mut sarr = core::mem::ManuallyDrop::new([sig]);
+    let mut s0 = core::mem::MaybeUninit::<[Signature; 1]>::uninit();
+    let mut u0 = core::mem::MaybeUninit::<[crate::types::SignedUser; 1]>::uninit();
+    let mut a0 = core::mem::MaybeUninit::<[crate::types::SignedUserAttribute; 1]>::uninit();
+    let details = core::mem::ManuallyDrop::new(SignedKeyDetails {
+        revocation_signatures: stack_vec_empty!(s0, Signature),
+        direct_signatures: stack_vec!(sarr, 1),
+        users: stack_vec_empty!(u0, crate::types::SignedUser),
+        user_attributes: stack_vec_empty!(a0, crate::types::SignedUserAttribute),
+    });
+    let mut w = FixW::<40>::new();
+    assert!(is_okf(details.to_writer(&mut w)), "C05: writing key details failed");
+    assert!(w.len == 22, "C05: a 20-octet signature body is written as tag + 1 length octet + body");
+    assert!(details.write_len() == w.len, "C05: SignedKeyDetails::write_len != octets written");
+    assert!(w.buf[0] == 0xC2 && w.buf[1] == 20, "C05: signature packet header");
+});
